@@ -4,12 +4,12 @@ package main
 
 import (
 	"bytes"
-	"time"
 	"fmt"
 	"runtime"
 	"sort"
 	"strconv"
 	"strings"
+	"time"
 
 	"github.com/chihaya/chihaya/frontend/http/bencode"
 )
